@@ -178,3 +178,51 @@ pub fn check_not(case: &str) -> Result<(), String> {
     let _ = cap.end();
     r
 }
+
+// ---- C02 ----------------------------------------------------------------------------------------------------------
+const CUT_KB: &[&str] = &[
+    "t(1).", "t(2).", "t(3).",
+    "a($X) :- t($X), !, $X == 2.", "a(9).",
+    "b($X) :- t($X), !.", "b(9).",
+    "c($X) :- t($X), $X > 1, !.", "c(9).",
+    "d($X, $Y) :- t($X), b($Y).",
+    "e($X) :- b($X), t($Y), $Y > 2.",
+    "g(2).", "g(3).", "f($X) :- t($X), g($X), !.",
+    "h($X) :- t($X), ! ; $X = 7.",
+    "j($X) :- $X > 1, !.", "j(1).", "i($X) :- t($X), j($X).",
+    "k($X) :- t($X), !, fail.", "k(5).",
+    "n($A, $B) :- $B = 20, !.", "n($A, 30).", "m($X) :- t($X), n($X, $Y), $Y > 10.",
+    "o :- not(k(1)).",
+    "q($X) :- $X < 3, !, $X > 1.", "q(3).", "p($X) :- t($X), q($X).",
+    "r($X) :- t($X), !, t($Y), $Y > $X.",
+    "s($X, $Y) :- t($X), t($Y), !.",
+    "cnt(0) :- !.", "cnt($N) :- $N > 0, $M = $N - 1, cnt($M).",
+    "u($X) :- t($X), $X > 1 ; t($X), !, $X > 5.", "u(8).",
+    "v($X) :- t($X), w($X, $Y), $Y == 2.", "w($A, $B) :- t($B), $B >= $A, !.",
+    "x($X) :- d($X, $Y), !, $X > 5.", "x(4).",
+    "y($X) :- b($X), c($Y), !, $Y > 5 ; $X = 6.", "y(0).",
+    "z($X) :- t($X), not(a($X)), $X > 1.",
+    "first([$H | $T], $H) :- !.", "first($L, none).",
+    "mem($X, [$X | $T]).", "mem($X, [$H | $T]) :- mem($X, $T).", "once_mem($X, $L) :- mem($X, $L), !.",
+];
+const CUT_QUERIES: &[&str] = &["a($X)", "a(9)", "b($X)", "b(2)", "b(9)", "c($X)", "d($X, $Y)", "e($X)", "f($X)", "h($X)", "i($X)", "k($X)", "k(5)", "m($X)", "o",
+    "p($X)", "r($X)", "s($X, $Y)", "cnt(3)", "u($X)", "v($X)", "x($X)", "y($X)", "z($X)", "first([a, b], $F)", "first([], $F)", "once_mem($X, [a, b, c])", "mem($X, [a, b])", "t($X)"];
+
+pub fn enum_cut(_seed: u64) -> Vec<String> { CUT_QUERIES.iter().map(|q| q.to_string()).collect() }
+
+pub fn check_cut(case: &str) -> Result<(), String> {
+    let mut kb = KnowledgeBase::new();
+    for r in CUT_KB { let rule = parse_rule(r).map_err(|e| format!("setup: {}: {}", r, e))?; add_rules(&mut kb, vec![rule]); }
+    let cap = Capture::start("c02");
+    let r = (|| -> Result<(), String> {
+        let query = parse_query(case).map_err(|e| format!("setup: {}", e))?;
+        let expected = match crate::o_ref::reference_answers(&kb, &query, 30) { Some(a) => a, None => { crate::skip(); return Ok(()); } };
+        let got = match answers(&kb, case, 31)? { Some(a) => a, None => { crate::skip(); return Ok(()); } };
+        let e: Vec<String> = expected.iter().map(|s| crate::o_ref::normalise(s)).collect();
+        let g: Vec<String> = got.iter().map(|s| crate::o_ref::normalise(s)).collect();
+        if e != g { return Err(format!("`{}`: the engine answers {:?}, depth-first resolution with cut answers {:?}", case, got, expected)); }
+        Ok(())
+    })();
+    let _ = cap.end();
+    r
+}
